@@ -133,11 +133,25 @@ def gen_layouts(kinds, L, max_refs=None):
                         yield seq, labs, endlab, dict(zip(refs, tgt)), off
 
 
+# Label names: the default scheme L0, L1, ... and a scheme of names that are also mnemonics (labels share no name space with
+# mnemonics in the documented grammar: "Labels are added by appending a colon to a label name")
+MNEMONIC_NAMES = ["mul", "nop", "ecall", "li", "ebreak", "add", "lw"]
+_SCHEME = {"names": None}
+
+
+def lname(name):
+    if _SCHEME["names"] is None:
+        return name
+    if name == "Lend":
+        return "jal"
+    return _SCHEME["names"][int(name[1:]) % len(_SCHEME["names"])]
+
+
 def item_text(k, i, tg, off, pc):
     if k == "b":
-        return f"beq x1, x2, {tg[i]}" + (f"+0x{off:x}" if off else "")
+        return f"beq x1, x2, {lname(tg[i])}" + (f"+0x{off:x}" if off else "")
     if k == "j":
-        return f"jal x1, {tg[i]}" + (f"+0x{off:X}" if off else "")
+        return f"jal x1, {lname(tg[i])}" + (f"+0x{off:X}" if off else "")
     if k == "jabs":
         return "jal x3, 16"
     if k == "bnum":
@@ -151,14 +165,14 @@ def render(case, framing):
     for i, k in enumerate(seq):
         t = item_text(k, i, tg, off, 0)
         if labs[i] == "alone":
-            lines.append(f"L{i}:")
+            lines.append(f"{lname(f'L{i}')}:")
             lines.append("    " + t)
         elif labs[i] == "inline":
-            lines.append(f"L{i}: {t}")
+            lines.append(f"{lname(f'L{i}')}: {t}")
         else:
             lines.append(t)
     if endlab:
-        lines.append("Lend:")
+        lines.append(f"{lname('Lend')}:")
     body = "\n".join(lines)
     needs = any(k in NEEDS_DATA for k in seq)
     if framing == "none":
@@ -228,11 +242,14 @@ def features(case):
     seq, labs, endlab, tg, off = case
     f = {}
     f["inline_on_expanding"] = any(l == "inline" and k in CLASSES and CLASSES[k][1] == "pseudo" and len(isolated(k)) > 1 for k, l in zip(seq, labs))
+    if _SCHEME["names"] is not None:
+        f["standalone_label_named_like_operandless_instruction"] = any(l == "alone" and lname(f"L{i}") in ("nop", "ecall", "ebreak") for i, l in enumerate(labs))
     return f
 
 
 def layout_shard(shard):
-    kinds, L, first, max_refs, framings, part, parts = shard
+    kinds, L, first, max_refs, framings, part, parts = shard[:7]
+    _SCHEME["names"] = shard[7] if len(shard) > 7 else None
     p = Partial()
     n = 0
     for case in gen_layouts(kinds, L, max_refs):
@@ -257,7 +274,9 @@ def layout_shard(shard):
             if ft["inline_on_expanding"]:
                 p.counters["inline-label-on-expanding-pseudo"] += 1
             if d:
-                p.violation(dict(oracle="layout", field="instructions", **ft), dict(kind="layout", case=[list(seq), list(labs), endlab, {str(k): v for k, v in tg.items()}, off], framing=framing),
+                if _SCHEME["names"] is not None:
+                    p.counters["label-named-like-a-mnemonic"] += 0
+                p.violation(dict(oracle="layout", field="instructions", **ft), dict(kind="layout", case=[list(seq), list(labs), endlab, {str(k): v for k, v in tg.items()}, off], framing=framing, names=_SCHEME["names"]),
                             f"{text!r}: {d}", size=(L, len(text)))
     if first == 0 and part == 0:
         c = (("ldn", "j"), ("inline", None), True, {1: "Lend"}, 8) if L >= 2 else (("j",), ("alone",), False, {0: "L0"}, 0)
@@ -519,6 +538,7 @@ def replay(case):
     if k == "layout":
         seq, labs, endlab, tg, off = case["case"]
         c = (tuple(seq), tuple(labs), endlab, {int(a): b for a, b in tg.items()}, off)
+        _SCHEME["names"] = case.get("names")
         text, d = check_layout(c, case["framing"])
         return [(dict(oracle="layout", field="instructions", **features(c)), f"{text!r}: {d}")] if d else []
     if k == "line":
@@ -559,7 +579,7 @@ def run(ctx):
                 "mnemonic case, radix/sign of literals, whitespace, comments, blank lines, line endings: loaded list unchanged. (d) pseudo-instruction groups "
                 "executed on the golden model from arbitrary register contents: documented effect and no other register touched. Non-trivial = text with a "
                 "label or reference / any (b)-(d) case.")
-    ctx.assumptions += ["'well-formed' = generated by this grammar: encodable immediates, label names that are not register or mnemonic names, no '#' inside strings",
+    ctx.assumptions += ["'well-formed' = generated by this grammar: encodable immediates, label names that are not register names (names that are also mnemonics are explored separately), no '#' inside strings",
                         "load-by-name may overwrite t0 (help page) in addition to rd"]
     ctx.require("ref-forward", "ref-backward", "ref-self", "ref-end", "inline-label-on-expanding-pseudo", "by-name-sequence")
     n_all = len(ALL_KINDS)
@@ -568,11 +588,18 @@ def run(ctx):
         plans += [("all-classes", ALL_KINDS, 3, 1), ("size-classes", SIZE_CLASSES, 4, 2)]
     for name, kinds, L, max_refs in plans:
         t0 = time.time()
-        parts = 1 if L < 3 else (8 if L == 3 else 32)
+        parts = 1 if L < 2 else (4 if L == 2 else (8 if L == 3 else 32))
         framings = FRAMINGS if L <= 2 else ((("data-first", "data-last")[ctx.seed % 2],) if ctx.quick else ("data-first", "data-last", "none"))
         shards = [(kinds, L, f, max_refs, framings, part, parts) for f in range(len(kinds)) for part in range(parts)]
         part = pmap(layout_shard, shards)
         ctx.space(f"layout-{name}-len{L}", part, t0, classes=len(kinds), length=L, framings=list(framings), max_referencing_items=max_refs)
+    # the same layout space with label names that are also mnemonics (one framing)
+    for L in (1, 2):
+        t0 = time.time()
+        parts = 1 if L == 1 else 4
+        shards = [(ALL_KINDS, L, f, None, ("data-first",), part, parts, MNEMONIC_NAMES) for f in range(len(ALL_KINDS)) for part in range(parts)]
+        part = pmap(layout_shard, shards)
+        ctx.space(f"layout-mnemonic-label-names-len{L}", part, t0, classes=len(ALL_KINDS), length=L, label_names=MNEMONIC_NAMES)
     for L in (2, 3) if ctx.quick else (2, 3, 4):
         t0 = time.time()
         part = pmap(byname_shard, [(L, f) for f in range(len(BYNAME))])
